@@ -253,7 +253,9 @@ def shapeop_case(rng, tier):
         s, t = rng.choice([((2, 3), (3, 2)), ((2, 3), (6,)), ((4,), (2, 2)), ((2, 2, 3), (4, 3)), ((3,), (3, 1)), ((6,), (1, 2, 3))])
         c['x'], c['shape'] = intdata(rng, (D, P) + s), list(t)
         # the forms NumPy accepts for a shape: tuple, list, Python int / NumPy integer (1-D target), tuple of NumPy integers, method call
-        c['form'] = rng.choice(['tuple', 'tuple', 'list', 'npints', 'method', 'method-list'] + (['int', 'npint', 'method-npint'] if len(t) == 1 else []))
+        c['form'] = rng.choice(['tuple', 'tuple', 'list', 'npints', 'method', 'method-list', 'varargs'] + (['int', 'npint', 'method-npint'] if len(t) == 1 else []))
+        if rng.random() < 0.3:
+            c['shape'][rng.randrange(len(t))] = -1          # one inferred dimension
     elif op in ('transpose', 'T', 'triu', 'tril', 'trace', 'diag2'):
         if op in ('transpose', 'T'):
             # any number of array axes (NumPy's .T reverses all of them)
@@ -338,7 +340,8 @@ def shapeop_fails(ctx, case):
     D, P = x.shape[:2]
     u = UTPM(x.copy())
     fns = {
-        'reshape': ((lambda v: v.reshape(_shape_form(case['shape'], case.get('form')))) if str(case.get('form')).startswith('method')
+        'reshape': ((lambda v: v.reshape(*[int(k) for k in case['shape']])) if case.get('form') == 'varargs'
+                    else (lambda v: v.reshape(_shape_form(case['shape'], case.get('form')))) if str(case.get('form')).startswith('method')
                     else (lambda v: algopy.reshape(v, _shape_form(case['shape'], case.get('form')))),
                     lambda a: np.reshape(a, _shape_form(case['shape'], case.get('form')))),
         'transpose': (lambda v: algopy.transpose(v), lambda a: a.T),
@@ -421,7 +424,8 @@ def shapeop_fails(ctx, case):
         if isinstance(m, str) or not np.array_equal(np.asarray(m[0]).reshape(y.data.shape), y.data):
             return 'utsum-model: UTPM.sum(axis=%d) differs from the axis-arithmetic model' % case['axis']
     if op == 'reshape':
-        m = ctx.model.arrs({'op': 'np', 'what': 'reshape', 'x': enc_arr(x), 'shape': [D, P] + list(case['shape'])})
+        # (an inferred dimension -1 is resolved by the element count; the resulting shape itself was compared with NumPy above)
+        m = ctx.model.arrs({'op': 'np', 'what': 'reshape', 'x': enc_arr(x), 'shape': list(y.data.shape)})
         if isinstance(m, str) or not np.array_equal(m[0], y.data):
             return 'reshape-model: differs from the row-major model'
     if op in ('transpose', 'T'):
@@ -482,6 +486,11 @@ def run(ctx):
         do(overlap_case(rng, ctx.tier), overlap_fails)
     for i in range(n):
         do(shapeop_case(rng, ctx.tier), shapeop_fails)
+    # every form of the shape argument of reshape on every run (the separate-integers form of the method included)
+    for t in ((3, 2), (6,), (1, 2, 3), (3, -1), (-1,)):
+        for form in ['tuple', 'list', 'npints', 'method', 'method-list', 'varargs'] + (['int', 'npint', 'method-npint'] if len(t) == 1 else []):
+            D_, P_ = rng.randint(1, 3), rng.randint(1, 2)
+            do({'op': 'reshape', 'D': D_, 'P': P_, 'x': intdata(rng, (D_, P_, 2, 3)), 'shape': list(t), 'form': form}, shapeop_fails)
     if ctx.tier == 'thorough':
         cnt = 0
         for shape, idx in all_small_indices():
